@@ -110,6 +110,8 @@ impl<'a> Rd<'a> {
 
 #[derive(Clone, Default)]
 struct PathCtx {
+  /// Variables assigned on this path (selectors and conditions prefer them).
+  assigned: Vec<u8>,
   required: BTreeSet<TaskId>,
   written: BTreeSet<ResId>,
   accessed: Vec<Stmt>,
@@ -155,6 +157,41 @@ impl<'c> Builder<'c> {
     self.cfg.faulty && tb.fseed != 0 && (tb.r_uniform || (tb.fseed as usize + r as usize * 2) % 3 != 0)
   }
 
+  /// A variable to read: prefers variables assigned on this path.
+  fn rvar(&self, rd: &mut Rd, px: &PathCtx) -> u8 {
+    if px.assigned.is_empty() { rd.pick(NVARS) as u8 } else { px.assigned[px.assigned.len() - 1 - rd.pick(px.assigned.len())] }
+  }
+  /// A variable to assign: prefers fresh variables so that earlier observations stay usable.
+  fn wvar(&self, rd: &mut Rd, px: &mut PathCtx) -> u8 {
+    let fresh: Vec<u8> = (0..NVARS as u8).filter(|v| !px.assigned.contains(v)).collect();
+    let v = if !fresh.is_empty() && !rd.chance(1, 4) { fresh[0] } else { rd.pick(NVARS) as u8 };
+    if !px.assigned.contains(&v) { px.assigned.push(v); }
+    v
+  }
+
+  fn expr_px(&self, rd: &mut Rd, px: &PathCtx, depth: usize) -> Expr {
+    let k = if depth >= 2 { rd.pick(2) } else { rd.pick(7) };
+    match k {
+      0 => Expr::Var(self.rvar(rd, px)),
+      1 => Expr::Const(rd.pick(8) as u8),
+      2 => Expr::Add(Box::new(self.expr_px(rd, px, depth + 1)), Box::new(self.expr_px(rd, px, depth + 1))),
+      3 => Expr::Eq(Box::new(Expr::Var(self.rvar(rd, px))), Box::new(Expr::Const(rd.pick(6) as u8))),
+      4 => Expr::Lt(Box::new(Expr::Var(self.rvar(rd, px))), Box::new(Expr::Const(1 + rd.pick(5) as u8))),
+      5 => Expr::Add(Box::new(Expr::Var(self.rvar(rd, px))), Box::new(Expr::Var(self.rvar(rd, px)))),
+      _ => Expr::Mul(Box::new(self.expr_px(rd, px, depth + 1)), Box::new(self.expr_px(rd, px, depth + 1))),
+    }
+  }
+
+  fn cond_px(&self, rd: &mut Rd, px: &PathCtx) -> Expr {
+    match rd.pick(4) {
+      0 => Expr::Lt(Box::new(Expr::Var(self.rvar(rd, px))), Box::new(Expr::Const(1 + rd.pick(4) as u8))),
+      1 => Expr::Eq(Box::new(Expr::Var(self.rvar(rd, px))), Box::new(Expr::Const(rd.pick(5) as u8))),
+      2 => Expr::Lt(Box::new(Expr::Const(rd.pick(4) as u8)), Box::new(Expr::Var(self.rvar(rd, px)))),
+      _ => self.expr_px(rd, px, 1),
+    }
+  }
+
+  #[allow(dead_code)]
   fn expr(&self, rd: &mut Rd, depth: usize) -> Expr {
     let k = if depth >= 2 { rd.pick(2) } else { rd.pick(6) };
     match k {
@@ -167,6 +204,7 @@ impl<'c> Builder<'c> {
     }
   }
 
+  #[allow(dead_code)]
   fn cond(&self, rd: &mut Rd) -> Expr {
     match rd.pick(3) {
       0 => Expr::Lt(Box::new(Expr::Var(rd.pick(NVARS) as u8)), Box::new(Expr::Const(1 + rd.pick(4) as u8))),
@@ -185,7 +223,7 @@ impl<'c> Builder<'c> {
       if x as TaskId != w && self.uncond[x].contains(&w) { cands.push(x as TaskId); }
     }
     let x = cands[rd.pick(cands.len())];
-    let st = Stmt::Require { task: Target::Fixed(x), chk: self.ochk(tb, x), var: rd.pick(NVARS) as u8 };
+    let st = Stmt::Require { task: Target::Fixed(x), chk: self.ochk(tb, x), var: self.wvar(rd, px) };
     px.accessed.push(st.clone());
     out.push(st);
     px.required.insert(x);
@@ -205,21 +243,22 @@ impl<'c> Builder<'c> {
       if !own.is_empty() { kinds.extend([2, 2, 2, 2]); }
       if !readable_gen.is_empty() { kinds.extend([3, 3, 3]); }
       if depth < 2 { kinds.extend([4, 4]); }
-      if self.cfg.dyn_targets && (me as usize) + 2 < self.n_tasks { kinds.push(5); }
+      if self.cfg.dyn_targets && (me as usize) + 2 < self.n_tasks { kinds.extend([5, 5]); }
       if self.cfg.dyn_targets && self.n_src >= 2 { kinds.push(6); }
+      if depth < 2 && self.n_src > 0 && (me as usize) + 2 < self.n_tasks { kinds.extend([8, 8]); }
       if self.cfg.multi_access && !px.accessed.is_empty() { kinds.push(7); }
       if kinds.is_empty() { break; }
       match kinds[rd.pick(kinds.len())] {
         0 => {
           let r = rd.pick(self.n_src as usize) as ResId;
-          let st = Stmt::Read { res: Target::Fixed(r), chk: self.rchk(tb, r), faulty: self.faulty(tb, r), var: rd.pick(NVARS) as u8 };
+          let st = Stmt::Read { res: Target::Fixed(r), chk: self.rchk(tb, r), faulty: self.faulty(tb, r), var: self.wvar(rd, px) };
           px.accessed.push(st.clone());
           out.push(st);
         }
         1 => {
           let span = self.n_tasks - me as usize - 1;
           let u = me + 1 + rd.pick(span) as TaskId;
-          let st = Stmt::Require { task: Target::Fixed(u), chk: self.ochk(tb, u), var: rd.pick(NVARS) as u8 };
+          let st = Stmt::Require { task: Target::Fixed(u), chk: self.ochk(tb, u), var: self.wvar(rd, px) };
           px.accessed.push(st.clone());
           out.push(st);
           px.required.insert(u);
@@ -228,7 +267,7 @@ impl<'c> Builder<'c> {
         2 => {
           let r = own[rd.pick(own.len())];
           let via = if self.cfg.written_to && rd.chance(1, 4) { Via::WrittenTo } else { Via::Ctx };
-          let val = self.expr(rd, 0);
+          let val = self.expr_px(rd, px, 0);
           out.push(Stmt::Write { res: Target::Fixed(r), chk: self.wchk(tb, r), faulty: self.faulty(tb, r) && self.cfg.wchks.len() > 1, val, via });
           px.written.insert(r);
         }
@@ -236,18 +275,19 @@ impl<'c> Builder<'c> {
           let r = readable_gen[rd.pick(readable_gen.len())];
           let w = self.writers[(r - self.n_src) as usize];
           self.ensure_required(me, w, tb, rd, px, &mut out);
-          let st = Stmt::Read { res: Target::Fixed(r), chk: self.rchk(tb, r), faulty: self.faulty(tb, r), var: rd.pick(NVARS) as u8 };
+          let st = Stmt::Read { res: Target::Fixed(r), chk: self.rchk(tb, r), faulty: self.faulty(tb, r), var: self.wvar(rd, px) };
           px.accessed.push(st.clone());
           out.push(st);
         }
         4 => {
-          let cond = self.cond(rd);
+          let cond = self.cond_px(rd, px);
           let mut p1 = px.clone();
           let mut p2 = px.clone();
           let then = self.block(me, tb, rd, &mut p1, depth + 1, max.min(3));
           let els = if rd.chance(1, 2) { self.block(me, tb, rd, &mut p2, depth + 1, max.min(3)) } else { vec![] };
           px.required = p1.required.intersection(&p2.required).cloned().collect();
           px.written = p1.written.union(&p2.written).cloned().collect();
+          for v in p1.assigned.iter().chain(p2.assigned.iter()) { if !px.assigned.contains(v) { px.assigned.push(*v); } }
           // `accessed` (for same-checker repetition) stays that of the common prefix.
           out.push(Stmt::If { cond, then, els });
         }
@@ -255,7 +295,7 @@ impl<'c> Builder<'c> {
           let avail = self.n_tasks - me as usize - 1;
           let span = 2 + rd.pick(avail - 1);
           let base = me as usize + 1 + rd.pick(avail - span + 1);
-          let sel = Expr::Var(rd.pick(NVARS) as u8);
+          let sel = if rd.chance(1, 4) { self.expr_px(rd, px, 1) } else { Expr::Var(self.rvar(rd, px)) };
           // One checker per target per execution: a Dyn require uses the per-target table at run time, which the
           // statement cannot express; so all targets in range must share the checker. Use the table entry of `base`
           // for the whole range and make sure Fixed requires of these targets in this task agree: the table is
@@ -263,10 +303,10 @@ impl<'c> Builder<'c> {
           let chk = self.ochk(tb, base as TaskId);
           let consistent = (base..base + span).all(|u| self.ochk(tb, u as TaskId) == chk);
           if consistent {
-            out.push(Stmt::Require { task: Target::Dyn { base: base as u8, span: span as u8, sel }, chk, var: rd.pick(NVARS) as u8 });
+            out.push(Stmt::Require { task: Target::Dyn { base: base as u8, span: span as u8, sel }, chk, var: self.wvar(rd, px) });
           } else {
             let u = base as TaskId;
-            let st = Stmt::Require { task: Target::Fixed(u), chk: self.ochk(tb, u), var: rd.pick(NVARS) as u8 };
+            let st = Stmt::Require { task: Target::Fixed(u), chk: self.ochk(tb, u), var: self.wvar(rd, px) };
             px.accessed.push(st.clone());
             out.push(st);
             px.required.insert(u);
@@ -276,24 +316,63 @@ impl<'c> Builder<'c> {
         6 => {
           let span = 2 + rd.pick(self.n_src as usize - 1);
           let base = rd.pick(self.n_src as usize - span + 1);
-          let sel = Expr::Var(rd.pick(NVARS) as u8);
+          let sel = if rd.chance(1, 4) { self.expr_px(rd, px, 1) } else { Expr::Var(self.rvar(rd, px)) };
           let chk = self.rchk(tb, base as ResId);
           let consistent = (base..base + span).all(|r| self.rchk(tb, r as ResId) == chk && self.faulty(tb, r as ResId) == self.faulty(tb, base as ResId));
           if consistent {
-            out.push(Stmt::Read { res: Target::Dyn { base: base as u8, span: span as u8, sel }, chk, faulty: self.faulty(tb, base as ResId), var: rd.pick(NVARS) as u8 });
+            out.push(Stmt::Read { res: Target::Dyn { base: base as u8, span: span as u8, sel }, chk, faulty: self.faulty(tb, base as ResId), var: self.wvar(rd, px) });
           } else {
             let r = base as ResId;
-            let st = Stmt::Read { res: Target::Fixed(r), chk: self.rchk(tb, r), faulty: self.faulty(tb, r), var: rd.pick(NVARS) as u8 };
+            let st = Stmt::Read { res: Target::Fixed(r), chk: self.rchk(tb, r), faulty: self.faulty(tb, r), var: self.wvar(rd, px) };
             px.accessed.push(st.clone());
             out.push(st);
           }
+        }
+        8 => {
+          // Switch: read a source, then require one of two different tasks depending on what was seen.
+          let r = rd.pick(self.n_src as usize) as ResId;
+          let var = self.wvar(rd, px);
+          let st = Stmt::Read { res: Target::Fixed(r), chk: self.rchk(tb, r), faulty: self.faulty(tb, r), var };
+          px.accessed.push(st.clone());
+          out.push(st);
+          let span = self.n_tasks - me as usize - 1;
+          let a = me + 1 + rd.pick(span) as TaskId;
+          let mut b = me + 1 + rd.pick(span) as TaskId;
+          if b == a { b = me + 1 + ((a - me) % span as TaskId); }
+          let cond = match rd.pick(3) {
+            0 => Expr::Lt(Box::new(Expr::Var(var)), Box::new(Expr::Const(2))),
+            1 => Expr::Eq(Box::new(Expr::Var(var)), Box::new(Expr::Const(1 + rd.pick(4) as u8))),
+            _ => Expr::Lt(Box::new(Expr::Const(1 + rd.pick(3) as u8)), Box::new(Expr::Var(var))),
+          };
+          let mut p1 = px.clone();
+          let mut p2 = px.clone();
+          let mut then = vec![];
+          let sa = Stmt::Require { task: Target::Fixed(a), chk: self.ochk(tb, a), var: self.wvar(rd, &mut p1) };
+          p1.accessed.push(sa.clone());
+          p1.required.insert(a);
+          for y in self.uncond[a as usize].iter() { p1.required.insert(*y); }
+          then.push(sa);
+          then.extend(self.block(me, tb, rd, &mut p1, depth + 1, 2));
+          let mut els = vec![];
+          if rd.chance(3, 4) {
+            let sb = Stmt::Require { task: Target::Fixed(b), chk: self.ochk(tb, b), var: self.wvar(rd, &mut p2) };
+            p2.accessed.push(sb.clone());
+            p2.required.insert(b);
+            for y in self.uncond[b as usize].iter() { p2.required.insert(*y); }
+            els.push(sb);
+            els.extend(self.block(me, tb, rd, &mut p2, depth + 1, 2));
+          }
+          px.required = p1.required.intersection(&p2.required).cloned().collect();
+          px.written = p1.written.union(&p2.written).cloned().collect();
+          for v in p1.assigned.iter().chain(p2.assigned.iter()) { if !px.assigned.contains(v) { px.assigned.push(*v); } }
+          out.push(Stmt::If { cond, then, els });
         }
         _ => {
           // Multi-access: repeat an earlier access of this path with the same checker (into a possibly different var).
           let st = px.accessed[rd.pick(px.accessed.len())].clone();
           let st = match st {
-            Stmt::Read { res, chk, faulty, .. } => Stmt::Read { res, chk, faulty, var: rd.pick(NVARS) as u8 },
-            Stmt::Require { task, chk, .. } => Stmt::Require { task, chk, var: rd.pick(NVARS) as u8 },
+            Stmt::Read { res, chk, faulty, .. } => Stmt::Read { res, chk, faulty, var: self.wvar(rd, px) },
+            Stmt::Require { task, chk, .. } => Stmt::Require { task, chk, var: self.wvar(rd, px) },
             s => s,
           };
           out.push(st);
@@ -350,7 +429,7 @@ pub fn build_program(g: &Genome, cfg: &GenCfg) -> Program {
     let mut px = PathCtx::default();
     let max = if cfg.wide { cfg.max_stmts + 3 } else { cfg.max_stmts };
     let body = b.block(me as TaskId, &tb, &mut rd, &mut px, 0, max);
-    let out = if rd.chance(7, 8) { Some(b.expr(&mut rd, 0)) } else { None };
+    let out = if rd.chance(7, 8) { Some(b.expr_px(&mut rd, &px, 0)) } else { None };
     let mut unc = BTreeSet::new();
     for u in uncond_requires(&body) {
       unc.insert(u);
@@ -392,6 +471,18 @@ pub fn build_history(g: &Genome, prog: &Program, cfg: &GenCfg) -> History {
         if !pending.contains(&res) { pending.push(res); }
       }
       _ => {
+        if pending.is_empty() {
+          let res = rd.pick(prog.n_res as usize) as ResId;
+          let v = rd.pick(5);
+          steps.push(Step::Change { res, val: if v < 4 { Some(v as Val) } else { None } });
+          pending.push(res);
+          if rd.chance(1, 2) {
+            let res2 = rd.pick(prog.n_res as usize) as ResId;
+            let v = rd.pick(5);
+            steps.push(Step::Change { res: res2, val: if v < 4 { Some(v as Val) } else { None } });
+            if !pending.contains(&res2) { pending.push(res2); }
+          }
+        }
         let mut report = std::mem::take(&mut pending);
         if rd.chance(1, 2) { report.reverse(); }
         let n_then = rd.pick(3);
